@@ -44,7 +44,7 @@ func constString(e ast.Expr) (string, bool) {
 
 func writeTables(ctx *common.Ctx) {
 	fset := token.NewFileSet()
-	f, err := parser.ParseFile(fset, "/repo/code.go", nil, 0)
+	f, err := parser.ParseFile(fset, common.RepoDir()+"/code.go", nil, 0)
 	if err != nil {
 		ctx.Violate("translator failed to parse code.go", nil, err.Error(), nil)
 		return
